@@ -1,13 +1,7 @@
 //! vf-kip: checks of the KIP parser crate `anda_kip` (C15, C16 static half).
-mod c15;
-mod c16;
-mod fixtures;
-mod grammar;
-mod probe;
-mod tok;
-mod walker;
 
 use vf_core::Runner;
+use vf_kip::*;
 
 fn main() {
     let prop = std::env::args().nth(1).unwrap_or_default();
